@@ -13,13 +13,17 @@ import random
 import re
 import uuid
 
+import c04_families
 import impl
 import lib
 from lib import coq_list, coq_Z
 
-COQ_TARGETS = ["theories/Props/C04.vo", "theories/Model/ScalarsEq.vo", "theories/Model/IsoTextEq.vo"]
+COQ_TARGETS = ["theories/Props/C04.vo", "theories/Model/ScalarsEq.vo", "theories/Model/IsoTextEq.vo",
+               "theories/Model/IsoHistoryEq.vo"]
+COQ_TARGETS = COQ_TARGETS + ["theories/Props/LeafBridge.vo", "theories/Model/LeafBridgeEq.vo"]      # = leaftie.COQ_TARGETS (leaftie imports this module)
 THEOREMS = ["C04_dur_wellformed", "C04_dur_reader", "C04_refuted_zero_malformed", "C04_not_full",
-            "C04_refuted_weeks", "C04_refuted_negative", "C04_iso_cache_transparent", "C04_dur_roundtrip",
+            "C04_refuted_weeks", "C04_refuted_negative", "C04_iso_cache_transparent", "C04_history_transparent",
+            "C04_history_ops", "C04_dur_roundtrip",
             "C04_text_int", "C04_text_float", "C04_text_decimal", "C04_text_fraction", "C04_text_uuid",
             "C04_text_path", "C04_text_enum", "C04_text_date", "C04_text_datetime", "C04_text_time",
             "C04_num_to_temporal", "C04_temporal_to_num", "C04_temporal_to_text",
@@ -27,20 +31,21 @@ THEOREMS = ["C04_dur_wellformed", "C04_dur_reader", "C04_refuted_zero_malformed"
             "C04_date_law_from_reader", "C04_datetime_law_from_reader", "C04_time_law_from_reader"]
 # non-vacuity: a concrete runtime satisfies RuntimeLaws, and text theorems instantiated on it (Examples of Props/C04.v)
 EXAMPLES = ["C04_runtime_laws_satisfiable", "C04_text_int_on_toy", "C04_dur_roundtrip_on_toy", "C04_text_date_on_toy",
-            "C04_text_enum_on_toy"]
+            "C04_text_enum_on_toy", "C04_history_example"]
 UTC = D.timezone.utc
 EPOCH = D.datetime(1970, 1, 1, tzinfo=UTC)
 TD = D.timedelta
 HDR = ("From Coq Require Import List ZArith NArith Ascii String. Import ListNotations.\n"
        "Require Import TL.Model.Duration TL.Model.Temporal TL.Model.Scalars TL.Model.ScalarsEq.\n"
        "Require Import TL.Model.IsoText TL.Model.IsoTextEq.\n"
+       "Require Import TL.Model.ScalarsToy TL.Model.IsoHistory TL.Model.IsoHistoryEq.\n"
        "Open Scope Z_scope.\n"
        "Definition sb (l : list N) : string := string_of_list_ascii (map ascii_of_N l).\n")
 
 
 _ORDER = ["Model/Duration", "Model/Temporal", "Model/Scalars", "Model/ScalarsEq", "Proofs/DurationLemmas",
           "Proofs/ScalarsLemmas", "Model/IsoText", "Model/IsoTextEq", "Proofs/IsoTextLemmas", "Model/ScalarsToy",
-          "Proofs/ScalarsToyLemmas", "Props/C04"]     # a linear extension of the Require order of C04's files
+          "Proofs/ScalarsToyLemmas", "Model/IsoHistory", "Proofs/IsoHistoryLemmas", "Model/IsoHistoryEq", "Props/C04"]     # a linear extension of the Require order of C04's files
 
 
 def _prebuild():
@@ -786,6 +791,132 @@ def corr_iso_reader(run):
     return [cases[i] for i in bad]
 
 
+# ----------------------------------------------------------------------------------
+# round 3: histories over the equal-but-differently-represented families (harness/c04_families.py)
+# ----------------------------------------------------------------------------------
+
+HOP = {"isoformat": "HIso", "marshal": "HMarshal", "unmarshal_str": "HStr", "unmarshal_bytes": "HBytes"}
+HIST_T = {"date": D.date, "datetime": D.datetime, "time": D.time, "timedelta": TD}
+
+
+def spell_td(val, sp):
+    """the duration (days, seconds, microseconds) built another way; None when that spelling cannot express it"""
+    import pendulum
+    d, s, us = val
+    plain = TD(days=d, seconds=s, microseconds=us)
+    try:
+        if sp == "fields":
+            return plain
+        if sp == "hours":
+            return TD(hours=24 * d, seconds=s, microseconds=us)
+        if sp == "mixed":
+            return TD(weeks=d // 7, days=d % 7, hours=s // 3600, minutes=s % 3600 // 60, seconds=s % 60,
+                      milliseconds=us // 1000, microseconds=us % 1000)
+        if sp == "micros":
+            return TD(microseconds=(d * 86400 + s) * 10 ** 6 + us)
+        if sp == "negated":
+            return -(TD(0) - plain)
+        if sp == "sum":
+            return TD(days=d) + TD(seconds=s) + TD(microseconds=us)
+        if sp == "pendulum":
+            return pendulum.duration(days=d, seconds=s, microseconds=us)
+        if sp == "pendulum-parsed":       # what pendulum.parse / serdes.dateparse hand out (no negative durations)
+            return pendulum.parse(iso_py(plain)) if plain >= TD(0) else None
+    except (OverflowError, ValueError):
+        return None
+    raise KeyError(sp)
+
+
+def build_hist_value(spec):
+    kind, val = spec["kind"], spec["value"]
+    if kind == "timedelta":
+        return spell_td(val, spec.get("spelling", "fields"))
+    if kind == "datetime" and val[7] is None:
+        return D.datetime(*val[:7], fold=val[8])          # naive: only ever a warm-up value
+    return build_value(kind, val)[1]
+
+
+def hist_op(name, x):
+    from typelib import marshal, serdes, unmarshal
+    if name == "isoformat":
+        return serdes.isoformat(x)
+    if name == "marshal":
+        return marshal(x)
+    if name == "unmarshal_str":
+        return unmarshal(str, x)
+    if name == "unmarshal_bytes":
+        return unmarshal(bytes, x)
+    raise KeyError(name)
+
+
+def emit_hval(x) -> str:
+    """emit_val with the record notation replaced by the constructor functions of Model/IsoHistoryEq.v (parsing the
+    record notation dominates the evaluation time of a cases file)"""
+    if isinstance(x, D.datetime):
+        return (f"(mkdt {x.year} {x.month} {x.day} {x.hour} {x.minute} {x.second} {x.microsecond} {off_of(x)} {x.fold})")
+    if isinstance(x, D.time):
+        return f"(mktm {x.hour} {x.minute} {x.second} {x.microsecond} {off_of(x)} {x.fold})"
+    return emit_val(x)
+
+
+def hist_values(case):
+    """(w, v) of a history case, or None when it is outside the clause: a spelling that cannot express the value, or
+    (for the families that claim it) the two values are not == and hash-equal on this interpreter"""
+    w, v = build_hist_value(case["warm"]), build_hist_value(case)
+    if w is None or v is None:
+        return None
+    if not case["family"].startswith("date/") and not (w == v and hash(w) == hash(v)):
+        return None
+    return w, v
+
+
+def run_history(case, w, v):
+    """caches cleared once; warm_op(w); then every emitting operation on v.  [(op, result | exception)]"""
+    impl.clear_caches()
+    out = []
+    for op, x in [(case["warm_op"], w)] + [(o, v) for o in c04_families.OPS]:
+        try:
+            out.append((op, hist_op(op, x)))
+        except Exception as e:
+            out.append((op, e))
+    return out
+
+
+def corr_history(run):
+    """Model/IsoHistory.v (run_hist toy_rt []: the memo threaded along the history) vs the implementation along the
+    same history; C04_history_transparent says the outcome is that of the cold calls"""
+    pairs, extra = c04_families.histories(run.tier, run.seed, few=True)     # quick: 2 of the 5 instants; the oracle runs all
+    pairs = [(c["family"], c["warm"], {k: c[k] for k in ("kind", "value", "spelling") if k in c}, c["warm_op"])
+             for c in corpus("history")] + [(f, w, j, c04_families.OPS[i % 4]) for i, (f, w, j) in enumerate(pairs)]
+    cases, coq, dist = [], [], dict(extra)
+    skipped = 0
+    for fam, warm, judged, warm_op in pairs:
+        case = c04_families.case_of(fam, warm, judged, warm_op)
+        wv = hist_values(case)
+        if wv is None:
+            skipped += 1
+            continue
+        w, v = wv
+        obs = run_history(case, w, v)
+        names, outs = {}, []          # equal texts are written once (let-bound): parsing string literals dominates
+        for _, r in obs:
+            if isinstance(r, (str, bytes)):
+                t = names.setdefault(cs(r), f"t{len(names)}")
+                outs.append(f"{'oS' if isinstance(r, str) else 'oB'} {t}")
+            else:
+                outs.append(f"VOther {cs('EXC ' + type(r).__name__)}")
+        lets = "".join(f"let {t} := {lit} in " for lit, t in names.items())
+        cases.append({"layer": "iso-history", "case": case, "observed": [repr(r)[:80] for _, r in obs]})
+        coq.append(f"({HOP[case['warm_op']]}, {emit_hval(w)}, {emit_hval(v)}, ({lets}{coq_list(outs)}))")
+        fam0 = fam.split("=")[0] if fam.startswith(("datetime/dist", "time/dist")) and "=1440" not in fam else fam
+        dist[fam0] = dist.get(fam0, 0) + 1
+    dist["skipped(spelling cannot express the value, or not ==/hash-equal)"] = skipped
+    bad, _ = eval_shards(run, "history", "pair_case_ok", coq)
+    run.record_corr("iso-history(two-call histories over the equal-but-differently-represented families vs Model/IsoHistory.v)",
+                    len(cases), [cases[i] for i in bad], len(cases), dist)
+    return [cases[i]["case"] for i in bad]
+
+
 def sample_laws(run):
     """the stated laws of RuntimeLaws, sampled against the interpreter (not typelib)"""
     import pendulum
@@ -830,7 +961,11 @@ def correspond(run: lib.Run):
     run._c04_bad["routines"] = corr_routines(run)
     corr_iso_writer(run)
     run._c04_bad["iso-reader"] = corr_iso_reader(run)
+    run._c04_bad["history"] = corr_history(run)
     sample_laws(run)
+    # the scalar MARSHALLERS and the leaf laws of the composite theorems, derived from this scalar model (Props/LeafBridge.v)
+    import leaftie      # imports this module's generators: not at module level
+    lib.run_tie(run, leaftie)
 
 
 # ----------------------------------------------------------------------------------
@@ -948,7 +1083,9 @@ def check_text(kind: str, spec: dict, carriers=None, warm=True):
 
 def warmers(v):
     if isinstance(v, D.datetime) and v.tzinfo is not None:
-        return [v.astimezone(D.timezone(TD(hours=5))), v.astimezone(UTC)]
+        o = v.utcoffset()
+        day = [o + TD(hours=k) for k in (24, -24, 12) if abs(o + TD(hours=k)) < TD(hours=24)]    # 24 h apart: the
+        return [v.astimezone(D.timezone(x)) for x in [TD(hours=5), TD(0), -o] + day]              # offset's .seconds wraps
     if isinstance(v, D.time) and v.tzinfo is not None:
         o = v.utcoffset()
         secs = (v.hour * 3600 + v.minute * 60 + v.second + 3600) % 86400
@@ -1067,6 +1204,45 @@ def check_numeric(case: dict):
     return fails
 
 
+def check_history(case: dict):
+    """the cache-warming clause as a two-call history: after ONE emitting call on a value w that is == v (and hash-equal)
+    but rendered differently, every emitting operation on v still yields v's own canonical text -- Python's
+    v.isoformat(), the harness's own duration writer for timedeltas -- and that text unmarshals back to v (same offset,
+    microseconds).  Cases outside the clause (w != v) are not judged, except the 'date/' near family (a date and the
+    datetime at its midnight), where the judged value is in U and no call on ANOTHER value may change its text."""
+    from typelib import unmarshal
+    wv = hist_values(case)
+    if wv is None:
+        return []
+    w, v = wv
+    kind = case["kind"]
+    want = iso_py(v) if isinstance(v, TD) else v.isoformat()
+    inp = {k: case[k] for k in ("family", "warm_op", "warm", "kind", "value", "spelling") if k in case}
+    obs = run_history(case, w, v)
+    fails, text = [], None
+    for op, got in obs[1:]:
+        exp = want.encode() if op == "unmarshal_bytes" else want
+        if text is None and isinstance(got, str):
+            text = got
+        if isinstance(got, Exception) or type(got) is not type(exp) or got != exp:
+            fails.append(_fail(f"history[{kind}]", "after a call on an equal-but-differently-represented value the emitted text "
+                               "is not the value's own canonical text", inp, got, exp, emitting_op=op,
+                               warmed_with=repr(w)[:120]))
+            break
+    if text is not None:
+        for c in ("CStr", "CBytes"):
+            try:
+                got = unmarshal(HIST_T[kind], carry(c, text))
+            except Exception as e:
+                got = e
+            if isinstance(got, Exception) or not same_temporal(got, v):
+                fails.append(_fail(f"history[{kind}]", "the text marshalled after a call on an equal-but-differently-represented "
+                                   "value does not unmarshal back to the value", inp, got, v, carrier=c, text=text,
+                                   warmed_with=repr(w)[:120]))
+                break
+    return fails
+
+
 GEN = {"int": gen_int, "float": gen_float, "decimal": gen_dec, "fraction": gen_frac, "uuid": gen_uuid, "path": gen_path,
        "date": gen_date, "datetime": gen_datetime, "time": gen_time, "timedelta": gen_td,
        "enum": lambda rng: rng.choice(list(rng.choice(ENUMS)))}
@@ -1085,6 +1261,8 @@ def corpus(layer=None):
 
 
 def run_case(case):
+    if case.get("op") == "history":
+        return check_history(case)
     if "op" in case:
         return check_numeric(case)
     carriers = HASHABLE if case["kind"] in ("uuid", "enum") else None     # DESIGN 9 #8 (C14): load() needs hashable text
@@ -1108,6 +1286,12 @@ def search(run: lib.Run, broken):
         cases.append({"op": "temporal->num", "kind": kind, "value": spec_of(kind, GEN[kind](rng))})
         kind = rng.choice(["date", "datetime", "time", "timedelta"])
         cases.append({"op": "temporal->text", "kind": kind, "value": spec_of(kind, GEN[kind](rng))})
+    # round 3: every family pair, warmed through every emitting operation; mismatching correspondence cases first
+    cases += getattr(run, "_c04_bad", {}).get("history", [])[:50]
+    pairs, _ = c04_families.histories(run.tier, run.seed)
+    for fam, warm, judged in pairs:
+        for op in c04_families.OPS:
+            cases.append(c04_families.case_of(fam, warm, judged, op))
     fails, hist = [], {}
     for case in cases:
         k = case.get("op") or case["kind"]
@@ -1132,7 +1316,11 @@ def search(run: lib.Run, broken):
         "by_kind": hist, "failures": len(fails),
         "rule": "unmarshal(T, carrier(str(v)|isoformat(v))) == v (offset, microseconds, exact class) in the five carriers "
                 "(hashable ones for uuid/enum), after warming isoformat with an equal-but-different value; emitted ISO text read by "
-                "a regex duration reader / datetime.fromisoformat; epoch readings recomputed with exact rational arithmetic",
+                "a regex duration reader / datetime.fromisoformat; epoch readings recomputed with exact rational arithmetic; "
+                "histories: for every pair (w, v) of the enumerated ==/hash-equal families (harness/c04_families.py: same instant "
+                "at every class of offset pair incl. 24 h apart, equal aware times, fold, timedelta spellings / pendulum.Duration, "
+                "date vs midnight datetime) and every warming operation: op(w), then isoformat/marshal/unmarshal(str|bytes) of v "
+                "== v.isoformat() and that text unmarshals back to v",
     }
     if out:
         run.samples.append({"oracle_failure": out[0]})
